@@ -48,6 +48,42 @@ def run(ctx):
             j = tn.index(r['name'])
             if not r['F'][j]:
                 viol.append((True, 'K=%s: find_pdu<%s>() on an object of exactly that class returns null' % (r['name'], r['name']), r, r['name']))
+    # the answer must not depend on the object's field values: every default-constructible class after random calls of its
+    # scalar setters still reports its own pdu_type() (seeded mutation C13b_m2 derived it from a settable header field)
+    import pktcommon as PC
+    try:
+        st2, acc = PC.prepare(ctx, ('gen_accessors',))
+        fl = [l.split() for l in C.run_harness('h_pkt', [('fl', ['fields'])]).get('fl', [])]
+        by_cls = {}
+        for t4 in fl:
+            if len(t4) == 4 and t4[2] in ('1', '2', '3'):
+                by_cls.setdefault(t4[0], []).append((t4[1], int(t4[2]), int(t4[3])))
+        type_of = {r['name']: r['type'] for r in T['rows']}
+        ms = []
+        for cls in acc['default_constructible']:
+            if cls not in type_of:
+                continue
+            for rep in range(6 if ctx.tier == 'quick' else 60):
+                lines = ['new ' + cls]
+                for (f, kind, bits) in by_cls.get(cls, []):
+                    if ctx.rng.random() < 0.7:
+                        v = ctx.rng.randrange(4) if kind == 2 else ctx.rng.choice([0, 1, 2, 3, (1 << min(bits, 16)) - 1, ctx.rng.randrange(1 << min(bits, 32))])
+                        lines.append('set 0 %s %d' % (f, v))
+                lines.append('ptype')
+                ms.append(('m%d' % len(ms), lines))
+        mh = C.run_harness('h_pkt', ms)
+        pairs += len(ms)
+        for sid, lines in ms:
+            cls = lines[0].split()[1]
+            out = [l for l in mh.get(sid, []) if not l.startswith('!~')]
+            last = out[-1] if out else ''
+            if any(l.startswith('!!') for l in out):
+                viol.append((True, 'K=%s: %s after scalar setters' % (cls, [l for l in out if l.startswith('!!')][0]), {'name': cls, 'flag': type_of[cls], 'type': type_of[cls]}, cls))
+            elif last.startswith('T ') and (int(last.split()[1]) != type_of[cls] or last.split()[2] != cls):
+                viol.append((True, 'K=%s: after %s the object reports pdu_type() %s (its class has %d): look-ups by type are answered for the wrong class'
+                             % (cls, [l for l in lines[1:-1]][:6], last.split()[1], type_of[cls]), {'name': cls, 'flag': type_of[cls], 'type': type_of[cls]}, cls))
+    except C.BuildError as e:
+        viol.append((False, 'mutated-state pass could not be built: %s' % str(e)[:200], {'name': '-', 'flag': 0, 'type': 0}, '-'))
     ctx.cov['evaluations'] = pairs
     ctx.cov['distinct_nontrivial'] = nontriv
     ctx.cov['exhaustive'] = True
